@@ -53,7 +53,9 @@ def gen_plan(seed: int, run: int, tier: str) -> dict:
     workers: dict[str, dict] = {}
     for i in range(nworkers):
         trials = [{"dur": rng.choice([0.3, 1.0, 2.5, 4.0, 7.0]) * hb, "attr": "w%d-%d" % (i, k), "x": round(rng.random(), 6), "end": rng.choice(["ok", "ok", "ok", "raise"])} for k in range(rng.randint(1, 3))]
-        workers["w%d" % i] = {"trials": trials, "plain_asks": 1 if rng.random() < 0.2 else 0, "start_delay": rng.choice([0.0, 0.0, 0.5, 2.0]) * hb}
+        # wall-clock skew of the worker's host against the database clock (heartbeats and the
+        # staleness test use the database clock, so this must not matter)
+        workers["w%d" % i] = {"trials": trials, "plain_asks": 1 if rng.random() < 0.2 else 0, "start_delay": rng.choice([0.0, 0.0, 0.5, 2.0]) * hb, "skew": rng.choice([0.0, 0.0, 0.0, 3600.0, -3600.0, 90000.0])}
     faults = []
     nf = rng.choice([0, 1, 1, 1, 1, 1, 2, 2])
     for v in rng.sample(sorted(workers), min(nf, nworkers - 1)):
@@ -179,7 +181,7 @@ def _run(plan: dict, sim: sched.Sim, ch: sched.Chooser, dep: deploy.Deployment) 
     beat_ids: set = set()
     beats: dict[str, int] = {}
     stalled: set = set()
-    procs = {n: sim.proc("P" + n) for n in sorted(plan["workers"])}
+    procs = {n: sim.proc("P" + n, skew=float(plan["workers"][n].get("skew", 0.0))) for n in sorted(plan["workers"])}
     boot = sim.proc("BOOT")
 
     def make_storage(proc: Any) -> Any:
@@ -329,7 +331,7 @@ def _run(plan: dict, sim: sched.Sim, ch: sched.Chooser, dep: deploy.Deployment) 
 
         lts = []
         for i in range(int(cfg.get("late_sweepers", 1))):
-            lp = sim.proc("PLATE%d" % i)
+            lp = sim.proc("PLATE%d" % i, skew=[0.0, 7200.0, -7200.0][i % 3])
             lts.append(sim.spawn(lp, "late%d" % i, late_body("late%d" % i, lp)))
         status = sim.run()
         if status != "ok":
